@@ -54,12 +54,11 @@ class Val:
         d = {k: v * e for k, v in self.units}
         if e.denominator == 1:
             return Val.mk(self.num ** int(e), d, self.inexact)
-        # rational power: exact only for perfect powers
-        n = self.num
-        root = _exact_root(n, e)
-        if root is not None:
-            return Val.mk(root, d, self.inexact)
-        return Val.mk(Fraction(float(n) ** float(e)), d, True)
+        # rational power: pint (Python) evaluates it in floating point, so the result is
+        # inexact even for perfect powers; only 1 ** e stays exact
+        if self.num == 1:
+            return Val.mk(1, d, self.inexact)
+        return Val.mk(Fraction(float(self.num) ** float(e)), d, True)
 
 
 def _iroot(n: int, k: int):
@@ -132,10 +131,24 @@ class _Parser:
         return t
 
     def parse(self):
-        v = self.expr()
+        v = self.addexpr()
         if self.i != len(self.toks):
             raise SyntaxError(f"trailing tokens {self.toks[self.i:]}")
         return v
+
+    def addexpr(self):
+        v = self.expr()
+        while True:
+            k, t = self.peek()
+            if k == "op" and t in "+-":
+                self.next()
+                w = self.expr()
+                if v.units != w.units:
+                    raise SyntaxError("adding values of different units")
+                n = v.num + w.num if t == "+" else v.num - w.num
+                v = Val.mk(n, v.udict(), v.inexact or w.inexact)
+            else:
+                return v
 
     def expr(self):
         v = self.unary()
@@ -176,7 +189,7 @@ class _Parser:
         if k == "num":
             return Val.mk(Fraction(t))
         if k == "op" and t == "(":
-            v = self.expr()
+            v = self.addexpr()
             k2, t2 = self.next()
             if t2 != ")":
                 raise SyntaxError("expected )")
